@@ -83,10 +83,20 @@ Print Assumptions C08_free_value_routing.
     then each member handler, evaluating alone exactly its own uses in line
     order ([proj m gus]), accepts them, passes its complete end-of-line checks
     and ends with the same destinations, pending constraints and
-    handler-constraint states as inside the group. *)
+    handler-constraint states as inside the group.  [Forall keyed gus]: the
+    line consists of uses named by a key; lines with free values are covered by
+    C08_group_line_is_fold_of_uses below and by the routing witnesses. *)
+Theorem C08_group_line_is_fold_of_uses :
+  forall cs gus ws ss,
+    all_fixed cs -> length ss = length cs -> gspell_grp cs gus ws ->
+    (do f0 <- first ws; iterate_group (S (words_size ws)) false cs ss f0)
+    = gfold gname (list hstate) (gustep cs) ss gus.
+Proof. exact group_words_spelled. Qed.
+Print Assumptions C08_group_line_is_fold_of_uses.
+
 Theorem C08_group_is_members_on_their_parts :
   forall cs initss gus ws ss',
-    all_fixed cs -> length initss = length cs -> gspell_grp cs gus ws ->
+    all_fixed cs -> length initss = length cs -> gspell_grp cs gus ws -> Forall keyed gus ->
     eval_group false false cs initss ws = Ok ss' ->
     forall m, m < length cs ->
       exists sm, fold_uses (member cs m) (init_state (member cs m) (nth m initss [])) false (proj m gus) = Ok sm /\
@@ -99,7 +109,7 @@ Print Assumptions C08_group_is_members_on_their_parts.
     spelling of its part of the line *)
 Theorem C08_group_member_standalone :
   forall cs initss gus ws ss',
-    all_fixed cs -> length initss = length cs -> gspell_grp cs gus ws ->
+    all_fixed cs -> length initss = length cs -> gspell_grp cs gus ws -> Forall keyed gus ->
     eval_group false false cs initss ws = Ok ss' ->
     forall m wsm, m < length cs -> spell (member cs m) (proj m gus) wsm ->
       exists sm, eval_arguments (member cs m) (nth m initss []) [] None wsm = Ok sm /\
@@ -112,7 +122,7 @@ Print Assumptions C08_group_member_standalone.
     end-of-line checks) is accepted by the group *)
 Theorem C08_group_accepts_what_members_accept :
   forall cs initss gus ws,
-    cs <> [] -> all_fixed cs -> length initss = length cs -> gspell_grp cs gus ws ->
+    cs <> [] -> all_fixed cs -> length initss = length cs -> gspell_grp cs gus ws -> Forall keyed gus ->
     (forall m, m < length cs ->
        exists sm, fold_uses (member cs m) (init_state (member cs m) (nth m initss [])) false (proj m gus) = Ok sm /\
                   final_checks (member cs m) sm = Ok tt) ->
@@ -123,12 +133,13 @@ Print Assumptions C08_group_accepts_what_members_accept.
 (** Non-vacuity: group grp1 (member a: -l requires -r, -r; member b: -x), the
     line "-lx -r" is a legal spelling of [l@a; x@b; r@a]. *)
 Example C08_nonvacuous_spelling :
-  all_fixed grp1 /\
+  all_fixed grp1 /\ Forall keyed [GFlag (0, 0); GFlag (1, 0); GFlag (0, 1)] /\
   gspell_grp grp1 [GFlag (0, 0); GFlag (1, 0); GFlag (0, 1)] [[45; 108; 120]; [45; 114]]%N /\
   proj 0 [GFlag (0, 0); GFlag (1, 0); GFlag (0, 1)] = [UFlag 0; UFlag 1] /\
   is_ok (eval_group false false grp1 grp1_inits [[45; 108; 120]; [45; 114]]%N) = true.
 Proof.
-  split; [repeat constructor|]. split; [|split; vm_compute; reflexivity].
+  split; [repeat constructor|]. split; [repeat constructor|]. split; [|split; vm_compute; reflexivity].
+  unfold gspell_grp.
   apply (gsp_flags gname (glname grp1) (gsname grp1) (gtnone grp1) (gtreq grp1)
            [((0, 0), 108%N); ((1, 0), 120%N)] [GFlag (0, 1)] [[45; 114]%N]); [discriminate| |].
   - repeat constructor; cbn; try discriminate; vm_compute; auto.
